@@ -19,7 +19,13 @@ func (ir *IntrospectionResolver) ResolveIntrospectionFields(selectionSet ast.Sel
 	for _, f := range common.SelectionSetToFields(selectionSet, nil) {
 		switch f.Name {
 		case "__type":
-			name := f.Arguments.ForName("name").Value.Raw
+			// the name can be given as a literal or as a variable
+			var name string
+			if arg := f.Arguments.ForName("name"); arg != nil && arg.Value != nil {
+				if v, err := arg.Value.Value(ir.Variables); err == nil {
+					name, _ = v.(string)
+				}
+			}
 			introspectionResult[f.Alias] = ir.resolveType(schema, &ast.Type{NamedType: name}, f.SelectionSet)
 			isIntrospection = true
 		case "__schema":
@@ -120,6 +126,11 @@ func (ir *IntrospectionResolver) resolveType(schema *ast.Schema, typ *ast.Type, 
 		case "name":
 			result[f.Alias] = namedType.Name
 		case "fields":
+			// only objects and interfaces have fields, for other kinds it's null
+			if namedType.Kind != ast.Object && namedType.Kind != ast.Interface {
+				result[f.Alias] = nil
+				continue
+			}
 			includeDeprecated := false
 			if deprecatedArg := f.Arguments.ForName("includeDeprecated"); deprecatedArg != nil {
 				v, err := deprecatedArg.Value.Value(ir.Variables)
@@ -144,22 +155,39 @@ func (ir *IntrospectionResolver) resolveType(schema *ast.Schema, typ *ast.Type, 
 		case "description":
 			result[f.Alias] = namedType.Description
 		case "interfaces":
+			if namedType.Kind != ast.Object && namedType.Kind != ast.Interface {
+				result[f.Alias] = nil
+				continue
+			}
 			interfaces := []map[string]interface{}{}
 			for _, i := range namedType.Interfaces {
 				interfaces = append(interfaces, ir.resolveType(schema, &ast.Type{NamedType: i}, f.SelectionSet))
 			}
 			result[f.Alias] = interfaces
 		case "possibleTypes":
-			if len(namedType.Types) > 0 {
+			// members of a union, implementations of an interface, null for other kinds
+			switch namedType.Kind {
+			case ast.Union:
 				types := []map[string]interface{}{}
 				for _, t := range namedType.Types {
 					types = append(types, ir.resolveType(schema, &ast.Type{NamedType: t}, f.SelectionSet))
 				}
 				result[f.Alias] = types
-			} else {
+			case ast.Interface:
+				types := []map[string]interface{}{}
+				for _, t := range schema.PossibleTypes[namedType.Name] {
+					types = append(types, ir.resolveType(schema, &ast.Type{NamedType: t.Name}, f.SelectionSet))
+				}
+				sortPayload(types)
+				result[f.Alias] = types
+			default:
 				result[f.Alias] = nil
 			}
 		case "enumValues":
+			if namedType.Kind != ast.Enum {
+				result[f.Alias] = nil
+				continue
+			}
 			includeDeprecated := false
 			if deprecatedArg := f.Arguments.ForName("includeDeprecated"); deprecatedArg != nil {
 				v, err := deprecatedArg.Value.Value(ir.Variables)
@@ -179,11 +207,19 @@ func (ir *IntrospectionResolver) resolveType(schema *ast.Schema, typ *ast.Type, 
 			}
 			result[f.Alias] = enums
 		case "inputFields":
+			if namedType.Kind != ast.InputObject {
+				result[f.Alias] = nil
+				continue
+			}
 			inputFields := []map[string]interface{}{}
 			for _, fi := range namedType.Fields {
-				// call resolveField instead of resolveInputValue because it has
-				// the right type and is a superset of it
-				inputFields = append(inputFields, ir.resolveField(schema, fi, f.SelectionSet))
+				// an input field is an __InputValue: name, description, type and default value
+				inputFields = append(inputFields, ir.resolveInputValue(schema, &ast.ArgumentDefinition{
+					Name:         fi.Name,
+					Description:  fi.Description,
+					Type:         fi.Type,
+					DefaultValue: fi.DefaultValue,
+				}, f.SelectionSet))
 			}
 			result[f.Alias] = inputFields
 		default:
